@@ -23,6 +23,7 @@ import (
 	"sync/atomic"
 	"time"
 
+	"verif/checks/c08/fpfmt"
 	"verif/lib/vlib"
 
 	"github.com/BondMachineHQ/BondMachine/pkg/bmnumbers"
@@ -65,9 +66,12 @@ func setup() (cleanup func()) {
 	dir, cleanup := vlib.Scratch("c08")
 	// FloPoCo tools
 	if _, err := exec.LookPath("fp2bin"); err != nil {
-		self, err := os.Executable()
-		if err != nil {
-			harnessError("os.Executable: %v", err)
+		// the light stand-in built by checks/c08/run.sh; falling back to this binary itself (slow start-up)
+		self := os.Getenv("C08_FPTOOL")
+		if _, err := os.Stat(self); self == "" || err != nil {
+			if self, err = os.Executable(); err != nil {
+				harnessError("os.Executable: %v", err)
+			}
 		}
 		for _, n := range []string{"fp2bin", "bin2fp"} {
 			if err := os.Symlink(self, filepath.Join(dir, n)); err != nil {
@@ -148,8 +152,8 @@ func flopocoJobs(maxW int) []unit {
 					vals = append(vals, v) // canonical encodings only: exponent/fraction are don't-care for zero/inf/NaN
 				}
 			}
-			for lo := 0; lo < len(vals); lo += 256 {
-				hi := lo + 256
+			for lo := 0; lo < len(vals); lo += 16 {
+				hi := lo + 16
 				if hi > len(vals) {
 					hi = len(vals)
 				}
@@ -157,6 +161,7 @@ func flopocoJobs(maxW int) []unit {
 			}
 		}
 	}
+	sort.SliceStable(us, func(i, k int) bool { return us[i].j.bits < us[k].j.bits })
 	return us
 }
 
@@ -264,7 +269,7 @@ func sweepFloat32(run *vlib.Run, workers int, deadline time.Time) *agg {
 	return total
 }
 
-func buildJobs(thorough bool) (units []unit, bounds map[string]any) {
+func buildJobs(thorough bool) (units, flpUnits []unit, bounds map[string]any) {
 	exh, fixS, flpW := 16, 8, 8
 	if thorough {
 		fixS, flpW = 12, 12
@@ -279,7 +284,7 @@ func buildJobs(thorough bool) (units []unit, bounds map[string]any) {
 		units = append(units, valuesFor(j, fixS)...)
 	}
 	units = append(units, floatJobs()...)
-	units = append(units, flopocoJobs(flpW)...)
+	flpUnits = flopocoJobs(flpW) // ordered by increasing total width
 	bounds = map[string]any{
 		"unsigned/bin/hex":           "widths 1..16: all 2^n values; widths 17..64: 7 boundary values {0,1,2^(n-1)-1,2^(n-1),2^(n-1)+1,2^n-2,2^n-1}; cast construction and every sized/unsized canonical literal",
 		"float16":                    "all 65536 patterns",
@@ -318,8 +323,8 @@ func replay(run *vlib.Run) {
 	case "pair":
 		replayPair(r.A, r.B, r.Witness)
 	case "roundtrip":
-		units, _ := buildJobs(true)
-		j := findJob(units, r.Case.Type, r.Case.Bits)
+		units, flp, _ := buildJobs(true)
+		j := findJob(append(units, flp...), r.Case.Type, r.Case.Bits)
 		if j == nil {
 			harnessError("no job for type %s<%d>", r.Case.Type, r.Case.Bits)
 		}
@@ -342,7 +347,7 @@ func replay(run *vlib.Run) {
 
 func main() {
 	if b := filepath.Base(os.Args[0]); b == "fp2bin" || b == "bin2fp" {
-		toolMain(b)
+		fpfmt.ToolMain(b)
 		return
 	}
 	run := vlib.Start("C08", "model_checking")
@@ -367,18 +372,33 @@ func main() {
 	run.Assume("regexp/syntax program + own NFA simulation stands for regexp.MatchString; validated per matcher against regexp.MatchString on every string up to 4 (quick) / 5 (thorough) runes over its class alphabet, and on every witness")
 
 	// ---- part 2 (types are registered sequentially here; the parallel phase only reads the registries)
-	units, bounds := buildJobs(run.Thorough())
+	units, flpUnits, bounds := buildJobs(run.Thorough())
 	refreshClaimRes()
 	t2 := time.Now()
-	total := runUnits(units, workers)
+	total, _ := runUnits(units, workers, time.Time{})
 	run.Set("part2_units_wall_s", time.Since(t2).Seconds())
 	exhaustive := true
+	// FloPoCo: two process executions per value (the type shells out) — own time budget
+	t2 = time.Now()
+	budget := 25 * time.Second
+	if run.Thorough() {
+		budget = 150 * time.Second
+	}
+	flpAgg, flpSkipped := runUnits(flpUnits, workers, time.Now().Add(budget))
+	total.merge(flpAgg)
+	run.Set("flopoco_wall_s", time.Since(t2).Seconds())
+	run.Set("flopoco_units_done", len(flpUnits)-flpSkipped)
+	run.Set("flopoco_units_total", len(flpUnits))
+	if flpSkipped > 0 {
+		exhaustive = false
+		run.Set("cap_hit", fmt.Sprintf("flopoco time budget %v: %d of %d units (16 values each, increasing width) not evaluated", budget, flpSkipped, len(flpUnits)))
+	}
 	if run.Thorough() {
 		t3 := time.Now()
-		total.merge(sweepFloat32(run, workers, time.Now().Add(12*time.Minute)))
+		total.merge(sweepFloat32(run, workers, start.Add(13*time.Minute)))
 		run.Set("float32_sweep_wall_s", time.Since(t3).Seconds())
 		if c, _ := run.Cov["float32_sweep_complete"].(bool); !c {
-			bounds["float32 sweep"] = "phase A complete (all signs x exponents x 2^16 high-mantissa patterns); phase B (all 2^32) cut by the 12 min deadline, see float32_sweep_phaseB_chunks_done_of_65536"
+			bounds["float32 sweep"] = "phase A complete (all signs x exponents x 2^16 high-mantissa patterns); phase B (all 2^32) cut by the deadline (13 min after process start), see float32_sweep_phaseB_chunks_done_of_65536"
 		} else {
 			bounds["float32 sweep"] = "all 2^32 patterns through ImportBytes+CastType -> ExportString -> the import function ImportString dispatches to"
 		}
